@@ -90,7 +90,16 @@ pub trait Shapes {
     fn s_two_slices(&mut self, a: &[u8], b: &[u8]) -> i64;
     fn s_opt_then_slice(&mut self, o: Option<u64>, s: &[u64], t: &str) -> u64;
     fn s_two_mut(&mut self, a: &mut [u8], b: &mut u32) -> usize;
+    /// slices of a zero-sized element type: only address and length cross
+    fn s_unit_slice(&mut self, v: &[Tick]) -> usize;
+    fn s_ret_unit_slice(&self) -> &[Tick];
 }
+
+/// Zero-sized element type.
+#[repr(C)]
+#[derive(Clone, Copy, Debug, PartialEq, Eq)]
+pub struct Tick;
+pub static TICKS: [Tick; 4096] = [Tick; 4096];
 
 #[derive(Debug, PartialEq, Eq, Clone, Copy)]
 pub struct MyErr(pub i32);
@@ -147,6 +156,12 @@ pub trait Attrs {
         77
     }
     fn at_last(&mut self, v: u64) -> u64;
+    /// exported to C only (it has its slot, in declaration order); Rust users of the opaque object
+    /// get this body, which goes through `at_first`
+    #[vtbl_only]
+    fn at_vonly(&self, v: u64) -> u64 {
+        self.at_first(v ^ 0x5a5a)
+    }
     extern "C" fn at_c(&self) -> u32;
     /// same signature as `at_last`, and its name is a suffix of it
     fn last(&mut self, v: u64) -> u64;
@@ -510,6 +525,16 @@ macro_rules! implementor {
                 self.core.enter("s_mut_ref", *out, &[(out as *mut u64 as usize, 1)]);
                 *out = self.core.mix(*out);
                 *out % 2 == 0
+            }
+            fn s_unit_slice(&mut self, v: &[Tick]) -> usize {
+                self.core.enter("s_unit_slice", v.len() as u64, &[(v.as_ptr() as usize, v.len())]);
+                self.core.mix(v.len() as u64);
+                v.len()
+            }
+            fn s_ret_unit_slice(&self) -> &[Tick] {
+                let n = (self.core.get() % 1000) as usize;
+                self.core.enter("s_ret_unit_slice", n as u64, &[(TICKS.as_ptr() as usize, n)]);
+                &TICKS[..n]
             }
         }
 
